@@ -350,6 +350,7 @@ func RunC19(c *engine.Ctx) {
 		rec(nil)
 	}
 	longLived(c)
+	sizeClasses(c)
 	collisions(c)
 	overwrites(c)
 	if SeamOn() {
@@ -549,6 +550,31 @@ func corrupt(c *engine.Ctx) {
 				}
 				t.State("corrupt:" + kind + ":" + dmg)
 				t.Outcome("corrupt:" + res.class())
+				return nil
+			})
+		}
+	}
+}
+
+// sizeClasses: documents of 1.5 MiB, 9 MiB and 20000 nodes, stored first, over a small entry and under one.
+func sizeClasses(c *engine.Ctx) {
+	c.Group("size-classes")
+	bigs := []string{"big-1.5MiB", "big-9MiB", "many-20000-nodes"}
+	c.Bound("size-classes", fmt.Sprintf("documents %v: first store, over a small entry, a small one over it, no-clobber over it; retrieve after every step", bigs))
+	st := startStates[0]
+	for _, b := range bigs {
+		for hi, h := range [][]op{
+			{{Kind: "store", Doc: b, ID: "a"}, {Kind: "retrieve", ID: "a"}},
+			{{Kind: "store", Doc: "d1", ID: "a"}, {Kind: "store", Doc: b, ID: "a"}, {Kind: "retrieve", ID: "a"}, {Kind: "store", Doc: "d2", ID: "a"}, {Kind: "retrieve", ID: "a"}},
+			{{Kind: "store", Doc: b, ID: "a"}, {Kind: "store", Doc: "d1", ID: "a", NoClobber: true}, {Kind: "retrieve", ID: "a"}, {Kind: "store", Doc: b, ID: "b"}, {Kind: "retrieve", ID: "b"}},
+		} {
+			b, h, hi := b, h, hi
+			c.Case(func() any { return map[string]any{"document": b, "history": fmt.Sprint(h)} }, func(t *engine.T) *engine.Violation {
+				if v := runHistory(t, st, h, 0, nil); v != nil {
+					return v
+				}
+				t.State(fmt.Sprint("size", b, hi))
+				t.Outcome("size-class-ok")
 				return nil
 			})
 		}
